@@ -16,6 +16,7 @@ import LdkModel.Proofs.ClaimTime
 import LdkModel.Proofs.Packages
 import LdkModel.Proofs.Sweeper
 import LdkModel.Proofs.SweeperConfirm
+import LdkModel.Proofs.HtlcBalance
 namespace Ldk.C07
 open Ldk Ldk.Pkg Ldk.Onchain
 
@@ -465,6 +466,48 @@ theorem htlc_success_spend_waits_for_csv (hs cs : Nat) :
   cases hc : c.holderClose <;> simp [itemCsv, hc, htlcSpendToLocalCsv, resolvingHtlcOutbound]
 
 example : htlcSpendToLocalCsv (monDelaysOfChannel 720 432) true (resolvingHtlcOutbound true false) = some 432 := by decide
+
+/-- **htlc_balance_one_class_counted_iff_winnable** — the classification chain of get_htlc_balance, TRANSLATED arm by arm
+    (tools/gen_htlc_balance.py), on a non-revoked commitment with no delayed output of the HTLC pending, for ALL values of the flags, pending
+    thresholds and the expiry: every UNRESOLVED HTLC output is reported under exactly one class (`htlcBalance` is a function, and it answers);
+    an HTLC the node offered (`offered == holder_commitment`) is `ClaimableAwaitingConfirmations` at the threshold of its confirmed timeout
+    spend, else `MaybeTimeoutClaimableHTLC` at its expiry; an inbound HTLC whose preimage the node knows is
+    `ClaimableAwaitingConfirmations` exactly when a PREIMAGE spend is pending (flag `true`), else `ContentiousClaimable` (also while the
+    counterparty's timeout spend is unburied); without the preimage it is `MaybePreimageClaimableHTLC`; and the class is NOT counted in the
+    node's total exactly for an inbound HTLC without preimage — the only case in which the node cannot win the output. A delayed output
+    pending (`holder_delayed_output_pending`) overrides everything with its own threshold. -/
+theorem htlc_balance_one_class_counted_iff_winnable (res osp off hold pre : Bool) (tsp : Option Nat) (sp : Option (Nat × Bool)) (cltv : Nat) :
+    let r := HtlcBalance.htlcBalance none res osp false off hold tsp pre sp cltv
+    (res = false → r.isSome = true) ∧
+    ((off == hold) = true → ¬(res = true ∧ osp = false) → r = some (match tsp with | some t => .awaiting t | none => .maybeTimeout cltv)) ∧
+    ((off == hold) = false → pre = true → ¬(res = true ∧ osp = false) →
+      r = some (match sp with | some (t, true) => .awaiting t | _ => .contentious cltv)) ∧
+    ((off == hold) = false → pre = false → res = false → r = some (.maybePreimage cltv)) ∧
+    (∀ c, r = some c → (c.counted = false ↔ ((off == hold) = false ∧ pre = false))) ∧
+    (∀ t, HtlcBalance.htlcBalance (some t) res osp false off hold tsp pre sp cltv = some (.awaiting t)) := by
+  cases res <;> cases osp <;> cases off <;> cases hold <;> cases pre <;> cases tsp <;>
+    rcases sp with _ | ⟨t, _ | _⟩ <;>
+    simp [HtlcBalance.htlcBalance, HtlcBalance.Cls.counted]
+
+example : HtlcBalance.htlcBalance none false false false false true none true (some (120, false)) 100 = some (.contentious 100) ∧
+    HtlcBalance.htlcBalance none false false false false true none true (some (120, true)) 100 = some (.awaiting 120) ∧
+    HtlcBalance.htlcBalance none true false false true true none false none 100 = none := by decide
+
+/-- **pending_class_is_translated_table** — the class under which the ledger (`Item.pendingClass`, what `balances` and the c07close
+    comparison print) reports an unspent HTLC output, and the one it keeps while the counterparty's spend is unburied, IS the
+    translated chain evaluated at that item's flags (nothing pending / a counterparty spend pending, not resolved, not revoked), for
+    every item; and the ledger counts a balance (`Bal.owned`) exactly when the translated variant is counted. -/
+theorem pending_class_is_translated_table (i : Item) (hk : i.kind ≠ .toSelf) (sp : Option Nat) :
+    (HtlcBalance.htlcBalance none false false false (decide (i.kind = .outboundHtlc)) true none (decide (i.kind = .inboundHtlcPreimage))
+        (sp.map fun t => (t, false)) i.cltv).bind clsOf = some i.pendingClass ∧
+    ∀ c, clsOf c = some i.pendingClass → ∀ sat, (Bal.owned ⟨i.pendingClass, sat⟩ = 0 ↔ (c.counted = false ∨ sat = 0)) := by
+  constructor
+  · cases hkind : i.kind <;> cases sp <;> simp_all [HtlcBalance.htlcBalance, clsOf, Item.pendingClass, Item.cltv]
+  · intro c hc sat
+    cases c <;> simp [clsOf] at hc <;> simp [← hc, Bal.owned, HtlcBalance.Cls.counted]
+
+example : (HtlcBalance.htlcBalance none false false false false true none true none ({ kind := .inboundHtlcPreimage, sat := 5000, claimableFrom := 0, contestedFrom := 140, csv := none } : Item).cltv).bind clsOf
+    = some (.contentious 140) := by decide
 
 /-- **descriptor_kind_table** — which kind of descriptor `get_spendable_outputs` produces for which of
     the node's scripts: only the holder's revokeable script yields a CSV-delayed descriptor, the
